@@ -236,6 +236,10 @@ func (ch c03) framing(c *core.Ctx, env *hs.Env, rng *core.Rng, idx int) {
 				binary.BigEndian.PutUint32(b[off:], core.Pick(rng, []uint32{9, 1000, 0x7fffffff, 0x80000000, 0x80000008, 0xfffffffe, 0xfffffff0}))
 				m = b
 			}
+			if rng.Intn(4) == 0 {
+				// a length word below the minimum of four (the length counts itself)
+				m = pg.RawLen(core.Pick(rng, []byte("QPBDECSHXd~")), uint32(rng.Intn(4)), nil)
+			}
 			shape += "t"
 			// short data is answered by an error or by closing the connection: it is the last
 			// message of the stream and the probe behind it may or may not be reached
